@@ -9,7 +9,7 @@
 #include <sys/wait.h>
 #include <time.h>
 
-typedef struct Src { char name[48]; char *text; bool multi; bool bad; bool example; bool rel; } Src;
+typedef struct Src { char name[48]; char *text; bool multi; bool bad; bool example; bool rel; bool roots; } Src;
 static Src srcs[160]; static int nsrcs;
 static char *slurp_text(const char *p) {
     FILE *f = __real_fopen(p, "rb"); if (!f) return NULL;
@@ -40,7 +40,8 @@ static void srcs_load(void) {
         closedir(D);
     }
     Src *s = &srcs[nsrcs++]; memset(s, 0, sizeof *s); strcpy(s->name, "multi"); s->multi = true;
-    s = &srcs[nsrcs++]; memset(s, 0, sizeof *s); strcpy(s->name, "multi_rel"); s->multi = true; s->rel = true;   /* copies at two absolute locations, relative command */
+    s = &srcs[nsrcs++]; memset(s, 0, sizeof *s); strcpy(s->name, "multi_rel"); s->multi = true; s->rel = true;
+    s = &srcs[nsrcs++]; memset(s, 0, sizeof *s); strcpy(s->name, "roots"); s->multi = true; s->roots = true;   /* imports from two directories (lib/, modules/util/), input spelled bare, with ./ and absolutely */   /* copies at two absolute locations, relative command */
     /* a program whose code section outgrows every initial buffer of the compiler (hundreds of functions) */
     { Buf b = {0};
       for (int i = 0; i < 300; i++) buf_printf(&b, "fn f%d(x: int) -> int {\n    let y: int = (+ (* x %d) %d)\n    if (> y %d) { return (- y %d) }\n    return (+ y (str_length \"s%d\"))\n}\nshadow f%d { assert (== 1 1) }\n", i, i + 2, i * 7, i * 3, i, i, i);
@@ -55,6 +56,24 @@ static void srcs_load(void) {
       buf_printf(&b, "        (else (- 0 1))\n    )\n}\nshadow code_point { assert (== (code_point 0) 1000) }\nfn main() -> int {\n    (println (code_point 5))\n    (println (code_point 40))\n    return 0\n}\nshadow main { assert (== 1 1) }\n");
       buf_put(&b, "", 1);
       s = &srcs[nsrcs++]; memset(s, 0, sizeof *s); strcpy(s->name, "gen_cond70"); s->text = (char *)b.d; }
+    /* 40 functions and top-level lets: the compiler-generated __init__ and the function table's reallocated part */
+    { Buf b = {0};
+      for (int i = 0; i < 6; i++) buf_printf(&b, "let G%d: int = %d\n", i, 10 + i * 3);
+      for (int i = 0; i < 40; i++) buf_printf(&b, "fn h%d(x: int) -> int {\n    return (+ (* x %d) G%d)\n}\nshadow h%d { assert (== 1 1) }\n", i, i + 1, i % 6, i);
+      buf_printf(&b, "fn main() -> int {\n    let mut acc: int = 0\n");
+      for (int i = 0; i < 40; i += 3) buf_printf(&b, "    set acc (+ acc (h%d %d))\n", i, i);
+      buf_printf(&b, "    (println (int_to_string acc))\n    return 0\n}\nshadow main { assert (== 1 1) }\n"); buf_put(&b, "", 1);
+      s = &srcs[nsrcs++]; memset(s, 0, sizeof *s); strcpy(s->name, "gen_fn40_globals"); s->text = (char *)b.d; }
+    /* many structurally equal function-type annotations, each parsed separately: whatever de-duplicates them must not depend on where they live */
+    { Buf b = {0};
+      buf_printf(&b, "fn add(a: int, b: int) -> int { return (+ a b) }\nshadow add { assert (== (add 1 2) 3) }\nfn mul(a: int, b: int) -> int { return (* a b) }\nshadow mul { assert (== (mul 2 3) 6) }\n");
+      for (int i = 0; i < 40; i++) buf_printf(&b, "fn ap%d(f: fn(int, int) -> int, x: int) -> int {\n    return (f x %d)\n}\nshadow ap%d { assert (== 1 1) }\n", i, i + 1, i);
+      for (int i = 0; i < 6; i++) buf_printf(&b, "fn un%d(g: fn(int) -> int, x: int) -> int {\n    return (g (+ x %d))\n}\nshadow un%d { assert (== 1 1) }\n", i, i, i);
+      buf_printf(&b, "fn inc(x: int) -> int { return (+ x 1) }\nshadow inc { assert (== (inc 1) 2) }\nfn main() -> int {\n    let mut acc: int = 0\n");
+      for (int i = 0; i < 40; i += 2) buf_printf(&b, "    set acc (+ acc (ap%d %s %d))\n", i, i % 4 ? "add" : "mul", i);
+      for (int i = 0; i < 6; i++) buf_printf(&b, "    set acc (+ acc (un%d inc %d))\n", i, i);
+      buf_printf(&b, "    (println (int_to_string acc))\n    return 0\n}\nshadow main { assert (== 1 1) }\n"); buf_put(&b, "", 1);
+      s = &srcs[nsrcs++]; memset(s, 0, sizeof *s); strcpy(s->name, "gen_fntypes40"); s->text = (char *)b.d; }
     /* typed random programs of the heap family's generator: structs, unions, tuples, closures, maps, nested arrays */
     for (int k = 0; k < 16 && nsrcs < 150; k++) {
         Buf b = {0}; heap_gen_program((uint64_t)k * 7919 + 3, &b); buf_put(&b, "", 1);
@@ -160,6 +179,12 @@ static void compile_once(EPlan *P, Cfg *c, uint64_t seed, Outs *o) {
         cwd = loc[(c->cwd + c->pathstyle) % 2];
         if (__real_chdir(cwd) != 0) return;
         snprintf(input, sizeof input, "main.nano"); snprintf(inabs, sizeof inabs, "%s/main.nano", cwd);
+    } else if (s->roots) {
+        /* real, read-only project with modules in two directories; the input is named bare, with ./ and absolutely from the project directory */
+        cwd = "/verif/corpus19/roots";
+        if (__real_chdir(cwd) != 0) return;
+        static const char *sp3[] = { "prog.nano", "./prog.nano", "/verif/corpus19/roots/prog.nano" };
+        snprintf(input, sizeof input, "%s", sp3[c->pathstyle % 3]); snprintf(inabs, sizeof inabs, "%s", sp3[2]);
     } else if (s->multi) {
         /* real, read-only source tree; spelling varies */
         const char *sp[] = { "/verif/corpus19/multi/main.nano", "/verif/corpus19/./multi/main.nano", "/verif/corpus19/multi/../multi/main.nano", "/verif//corpus19/multi/main.nano" };
@@ -212,7 +237,10 @@ static void compile_once(EPlan *P, Cfg *c, uint64_t seed, Outs *o) {
     { uint64_t h = 1469598103934665603ull; Buf *raw[3] = { &o->genc, &o->tmpc, &o->nvm };
       for (int i = 0; i < 3; i++) for (size_t k = 0; k < raw[i]->len; k++) { h ^= raw[i]->d[k]; h *= 1099511628211ull; }
       o->rawhash = h; }
-    if (s->multi && !s->rel) {
+    if (s->roots) {
+        Buf *all[4] = { &o->out, &o->err, &o->genc, &o->tmpc };
+        for (int i = 0; i < 4; i++) { replace_all(all[i], "/verif/corpus19/roots/", ""); replace_all(all[i], "./lib/", "lib/"); replace_all(all[i], "./modules/", "modules/"); replace_all(all[i], "./prog.nano", "prog.nano"); }
+    } else if (s->multi && !s->rel) {
         /* the path of an imported module is embedded as spelled (module introspection): normalised here so that any
          * OTHER difference is still seen; the embedding itself is reported separately (known finding) */
         static const char *dsp[] = { "/verif/corpus19/./multi", "/verif/corpus19/multi/../multi", "/verif//corpus19/multi" };
